@@ -203,6 +203,23 @@ prop("C18", "with a response timeout a silent broker cannot stall the client", "
      "distinct = FNV-64 of the case JSON.",
      [dict(tests="^TestVerifC18_ResponseTimeout$", checks_quick=1200, checks_thorough=6000, shards=16)])
 
+prop("C09", "reconnect lifecycle", "fault_enumeration",
+     "rapid-generated lifecycle cases against the real ReconnectClient: per dial attempt a scripted outcome from {dial error, "
+     "CONNACK refused (1..5), CONNACK never sent (+WithTimeout), accepted then peer close / garbage / silence with keep-alive on, "
+     "stays up}, 0..7 attempts, base 1..5 ms (300 ms for the waiting phase), max in {1,2,4,8} x base or below base; a stop event "
+     "(Disconnect, or cancel of the first Connect's context) placed deterministically in a phase {dialling (held dialler), "
+     "connecting (CONNACK withheld), connected, waiting to redial}; CONNECT options generated (clean session, keep-alive, will, "
+     "credentials). Oracle: (1) every dial starts >= min(base*2^j, max) after the previous attempt ended (j = waits since the "
+     "last accepting CONNACK; monotonic lower bound), (2) no transport handed out earlier is open at a DialContext call, (3) every "
+     "connection starts with exactly one CONNECT whose decoded fields equal the options, (4) after the stop no dial that started "
+     "later yields a transport, none starts once the loop goroutine is gone, Disconnect returns and the loop goroutine has "
+     "exited, Connect reports the cancelled context, (5) a redial follows every unexpected end (stuck detector). Non-trivial = >= 2 "
+     "consecutive failures followed by a success, or a stop in a phase other than connected; distinct = FNV-64 of the case JSON.",
+     [dict(tests="^TestVerifC09_Lifecycle$", checks_quick=120, checks_thorough=700, shards=16, shards_quick=4)],
+     assumptions=["the Dialer honours its context (like net.Dialer); the harness releases a held dial after the stop event",
+                  "an attempt whose accepting CONNACK was followed at once by a link failure may count as success or failure (lower bound uses the smaller wait)",
+                  "timers never fire early"])
+
 # ---------------------------------------------------------------------------------------------
 # texts for MANIFEST.json (tools/gen_manifest.py)
 
@@ -306,3 +323,8 @@ mtext("C17", "E4 history runner + E3 broker model injecting inbound traffic",
 mtext("C18", "E4 history runner + E3 broker model dropping acknowledgements",
       "rapid fault-injection property test; oracle = RequestTimeoutError reported, link closed and redialled, request acknowledged later; stuck detector for 'waits indefinitely'",
       "Sampling over request kinds x exchange phase x connection (incl. the retransmitting one) on which the acknowledgement is dropped.", E4NOTE, "DESIGN.md section 4 / C18")
+
+mtext("C09", "lifecycle runner on E3 broker model + gated dialer",
+      "rapid property test over scripted attempt outcomes x stop phase; oracle = lower-bound timing invariant, transport hygiene, decoded CONNECT equality, no dial after stop",
+      "Sampling of failure sequences and stop placements; stop phases are made deterministic with a gated dialer / withheld CONNACK, all timing assertions are lower bounds.",
+      E4NOTE, "DESIGN.md section 4 / C09")
